@@ -164,16 +164,20 @@ AllCases == UNION {Cases(u) : u \in 1 .. NU}
 
 -----------------------------------------------------------------------------
 VARIABLE cs
-Init == cs \in {Case(u, 1, "base", <<>>) : u \in 1 .. NU}
-Next == /\ cs.op = "base" /\ cs.r = 1
-        /\ cs' \in Cases(cs.u) \ {cs}
+\* a trivial initial state: all evaluation happens in the worker threads (TLC's main thread has a small stack)
+Start == Case(0, 0, "start", <<>>)
+Init == cs = Start
+Next == \/ /\ cs = Start
+           /\ cs' \in {Case(u, 1, "base", <<>>) : u \in 1 .. NU}
+        \/ /\ cs.op = "base" /\ cs.r = 1
+           /\ cs' \in Cases(cs.u) \ {cs}
 Spec == Init /\ [][Next]_cs
 
-Inv_WF == WFUniverse(PresOf(cs).P)
+Inv_WF == cs # Start => WFUniverse(PresOf(cs).P)
 
 \* the worklist of compute_from_dyn collects exactly the set of layouts reachable in >= 1 steps,
 \* whatever the declaration order and the order in which references are handed out
-Inv_Algo == LET pr == PresOf(cs) IN AlgoId(pr.P, pr.root) = CanonId(pr.P, pr.root)
+Inv_Algo == cs # Start => LET pr == PresOf(cs) IN AlgoId(pr.P, pr.root) = CanonId(pr.P, pr.root)
 
 \* CanonId is invariant under every permutation / documentation / implementation choice
 Inv_Perm == IsPerm(cs) => LET pr == PresOf(cs)
